@@ -533,38 +533,147 @@ fn conversions(rep: &mut Report, rng: &mut Rng, which: usize) {
 }
 
 fn navigate(rep: &mut Report, rd: &mut Reader, fam: &str, text: &str) {
+	navigate_with(rep, rd, fam, text, Opts::STRICT, None);
+	// the same document read from a character source that declares other encoded lengths: the code
+	// map is then in those units, and navigation must be just as exact
+	if rep.evaluations % 4 == 0 || text.len() < 24 {
+		let w = crate::real::ALL_WIDTHS[(rep.evaluations as usize / 4) % crate::real::ALL_WIDTHS.len()];
+		navigate_with(rep, rd, fam, text, Opts::STRICT, Some(w));
+	}
+}
+
+/// Navigation checks on `text` parsed under `opts`, through `parse_str_with`
+/// or (when `widths` is given) through `parse_with` over a source declaring
+/// those character lengths.
+fn navigate_with(rep: &mut Report, rd: &mut Reader, fam: &str, text: &str, opts: Opts, widths: Option<crate::real::Widths>) {
 	rep.evaluations += 1;
 	let rd_res = rd.read(text.as_bytes(), true);
-	if !rd_res.accepts(Opts::STRICT) {
+	if !rd_res.accepts(opts) {
 		return;
 	}
 	let Some(root) = &rd_res.root else { return };
-	let (v, cm) = match guard(|| Value::parse_str(text)) {
-		Ok(Ok(x)) => x,
-		_ => return, // acceptance is C01's business
+	let parsed = match widths {
+		None => guard(|| Value::parse_str_with(text, crate::real::options(opts))).map(|r| r.ok()),
+		Some(w) => guard(|| {
+			Value::parse_with(
+				text.chars().map(|c| Ok::<decoded_char::DecodedChar, std::convert::Infallible>(decoded_char::DecodedChar::new(c, w.of(c)))),
+				crate::real::options(opts),
+			)
+		})
+		.map(|r| r.ok()),
 	};
-	let case = json!({"sub": "navigate", "doc": text});
+	let (v, cm) = match parsed {
+		Ok(Some(x)) => x,
+		_ => return, // acceptance is C01's / C12's business
+	};
+	// the reference fragments, in the units of the source
+	let frags: Vec<Frag> = match widths {
+		None => rd_res.frags.clone(),
+		Some(w) => {
+			let m = super::parsefam::width_offsets(text, w);
+			rd_res
+				.frags
+				.iter()
+				.map(|f| {
+					let mut g = f.clone();
+					g.start = m[f.start];
+					g.end = m[f.end];
+					g
+				})
+				.collect()
+		}
+	};
+	let how = match (widths, opts == Opts::STRICT) {
+		(None, true) => String::new(),
+		(None, false) => format!(" (options truncated={} invalid={})", opts.truncated, opts.invalid),
+		(Some(w), _) => format!(" (source declaring {:?} lengths, options truncated={} invalid={})", w, opts.truncated, opts.invalid),
+	};
+	let case = json!({"sub": "navigate", "doc": text, "options": [opts.truncated, opts.invalid], "widths": widths.map(|w| format!("{:?}", w))});
 	let r = guard(|| {
 		let mut cx = Ctx {
 			cm: &cm,
-			frags: &rd_res.frags,
+			frags: &frags,
 			checks: 0,
 		};
 		let n = walk(&mut cx, &v, root, 0)?;
-		if n != rd_res.frags.len() {
-			return Err(format!("walk covered {} fragments of {}", n, rd_res.frags.len()));
+		if n != frags.len() {
+			return Err(format!("walk covered {} fragments of {}", n, frags.len()));
 		}
-		let f = check_fragments(&v, &rd_res.frags)?;
+		let f = check_fragments(&v, &frags)?;
 		Ok::<u64, String>(cx.checks + f)
 	});
 	match r {
 		Ok(Ok(n)) => {
 			rep.count("offset_checks", n);
 			rep.count("documents_navigated", 1);
-			rep.count("fragments", rd_res.frags.len() as u64);
+			if widths.is_some() {
+				rep.count("documents_navigated_in_other_length_units", 1);
+			}
+			if opts != Opts::STRICT {
+				rep.count("documents_navigated_under_lenient_options", 1);
+			}
+			rep.count("fragments", frags.len() as u64);
 		}
-		Ok(Err(m)) => rep.violation("C11:navigation", format!("[{}] document `{}`: {}", fam, show(text.as_bytes()), m), case),
-		Err(p) => rep.violation("C11:panic", format!("[{}] document `{}`: panic {}", fam, show(text.as_bytes()), p), case),
+		Ok(Err(m)) => rep.violation("C11:navigation", format!("[{}] document `{}`{}: {}", fam, show(text.as_bytes()), how, m), case),
+		Err(p) => rep.violation("C11:panic", format!("[{}] document `{}`{}: panic {}", fam, show(text.as_bytes()), how, p), case),
+	}
+}
+
+/// Writes `r` as JSON text in which some strings and keys carry an unpaired
+/// surrogate escape (at the end, at the start or in the middle), so that the
+/// text is accepted under the lenient options only.
+fn write_with_lone_surrogates(rng: &mut Rng, r: &RVal, out: &mut String) {
+	fn string(rng: &mut Rng, s: &str, out: &mut String) {
+		let mut lit = String::new();
+		pr::write_string(s, &mut lit);
+		let esc = ["\\ud800", "\\uDBFF", "\\udc00", "\\uDFFF", "\\ud83d\\ud83d", "\\ud800\\u0041"][rng.below(6)];
+		match rng.below(5) {
+			0 => lit.insert_str(lit.len() - 1, esc),
+			1 => lit.insert_str(1, esc),
+			2 => {
+				lit.insert_str(lit.len() - 1, esc);
+				lit.insert_str(1, esc);
+			}
+			_ => {}
+		}
+		out.push_str(&lit);
+	}
+	let blank = |rng: &mut Rng, out: &mut String| {
+		if rng.chance(1, 3) {
+			out.push_str([" ", "\n", "\t ", "  "][rng.below(4)]);
+		}
+	};
+	match r {
+		RVal::Str(s) => string(rng, s, out),
+		RVal::Arr(a) => {
+			out.push('[');
+			for (i, x) in a.iter().enumerate() {
+				if i > 0 {
+					out.push(',');
+				}
+				blank(rng, out);
+				write_with_lone_surrogates(rng, x, out);
+				blank(rng, out);
+			}
+			out.push(']');
+		}
+		RVal::Obj(e) => {
+			out.push('{');
+			for (i, (k, x)) in e.iter().enumerate() {
+				if i > 0 {
+					out.push(',');
+				}
+				blank(rng, out);
+				string(rng, k, out);
+				blank(rng, out);
+				out.push(':');
+				blank(rng, out);
+				write_with_lone_surrogates(rng, x, out);
+			}
+			blank(rng, out);
+			out.push('}');
+		}
+		other => pr::compact(other, out),
 	}
 }
 
@@ -655,6 +764,37 @@ pub fn run(cfg: &Config) -> i32 {
 			rep.distinct_bytes(text.as_bytes());
 			navigate(&mut rep, &mut rd, "deep-documents", &text);
 			rep.max("deepest_navigated_nesting", depth as u64);
+		}
+		rep
+	});
+	total.merge(rep);
+
+	// documents accepted under the lenient options only (unpaired surrogate escapes in strings and keys),
+	// read with those options, also from sources declaring other character lengths
+	let n = cfg.budget(60_000, 2_000_000);
+	let rep = parallel(cfg.threads, shards, |i| {
+		let mut rep = Report::new();
+		let mut rng = Rng::new(seed).fork(0xc11f + i as u64);
+		let mut rd = Reader::new();
+		let lenient = Opts { truncated: true, invalid: true };
+		for k in 0..(n / shards as u64).max(1) {
+			let p = ValueParams {
+				max_depth: 1 + rng.below(4),
+				max_width: 1 + rng.below(5),
+				..Default::default()
+			};
+			let r = gen::gen_value(&mut rng, &p, 0);
+			let mut text = String::new();
+			write_with_lone_surrogates(&mut rng, &r, &mut text);
+			rep.distinct_bytes(text.as_bytes());
+			navigate_with(&mut rep, &mut rd, "lone-surrogate-documents", &text, lenient, None);
+			if k % 3 == 0 {
+				let w = crate::real::ALL_WIDTHS[(k as usize / 3) % crate::real::ALL_WIDTHS.len()];
+				navigate_with(&mut rep, &mut rd, "lone-surrogate-documents", &text, lenient, Some(w));
+			}
+			if i == 0 && k < 2 {
+				rep.sample(json!({"family": "lone-surrogate-documents", "doc": show(text.as_bytes())}));
+			}
 		}
 		rep
 	});
